@@ -205,7 +205,17 @@ impl Model for IM {
 
 fn store_cases(tier: Tier) -> Vec<SCase> {
     let mut v = vec![];
-    let wrap: Vec<u128> = vec![1u128 << 62, 1u128 << 63, (usize::MAX as u128) / 3 + 1, (usize::MAX as u128) / 2 + 1, (usize::MAX as u128) / 4 + 1, usize::MAX as u128, usize::MAX as u128 - 1];
+    let mut wrap: Vec<u128> = vec![1u128 << 62, 1u128 << 63, usize::MAX as u128, usize::MAX as u128 - 1];
+    // around every index at which index * bytes-per-pixel (or index / pixels-per-byte arithmetic) reaches usize::MAX
+    for d in [2u128, 3, 4, 8] {
+        for k in 0..=2u128 {
+            wrap.push((usize::MAX as u128) / d + k);
+            wrap.push((usize::MAX as u128) / d - k);
+            wrap.push((usize::MAX as u128 - k) / d);
+        }
+    }
+    wrap.sort();
+    wrap.dedup();
     for bpp in BPPS {
         for be in [false, true] {
             for len in 0..=tier.pick(8, 12) {
